@@ -1184,7 +1184,7 @@ class EtreeElementNode(ElementNode):
             yield UntypedAtomic(''.join(etree_iter_strings(self.value)))
         elif self.xsd_type.is_element_only():
             return
-        elif self.value.get(XSI_NIL) and getattr(self.xsd_type.parent, 'nillable', None):
+        elif self.nilled and getattr(self.xsd_type.parent, 'nillable', None):
             return
         elif self.value.text is not None:
             yield from get_atomic_sequence(self.xsd_type, self.value.text, self.nsmap)
